@@ -395,3 +395,61 @@ PROPS["C17"] = {
         ],
     },
 }
+
+PROPS["C04"] = {
+    "pkg": "c04", "level": "fault_enumeration",
+    "technique": "fault injection through the real handlers on the deterministic simulator, driven by rapid: (1) wire-level value alterations, value copies and whole-message "
+                 "substitutions of every field of every message kind of every protocol by one cheater, (2) state-level deviations of a CMP presigner applied through a round "
+                 "proxy (wrong gamma, k, x, delta share, chi share, sigma share) in the offline, full and online variants; oracles: O1 no honest party is ever named by a "
+                 "self-detected error, O2 catalogued verified-on-receipt fields are attributed to exactly the sender, O3 every honest signer singles out the deviating presigner",
+    "level_text": "The cheater is run by the library's own handler (authentic headers, queues and echo-broadcast hashes); its outgoing messages are altered at one CBOR leaf "
+                  "(another valid point/scalar/number, or the same field of another message) or its round state is edited around Finalize. Relayed abort notices are excluded "
+                  "exactly as the statement says (the delivery that ended the session was a round-0 notice and its origin is the only culprit).",
+    "level_note": "The O2 catalogue (catalogue/o2.json) lists the fields whose alteration every receiving honest party attributes to the sender on the pinned tree; it was "
+                  "generated by running every field once and is a regression oracle for 'a message that fails verification is attributed to its sender'. Schedules are "
+                  "sampled; CMP volumes are small.",
+    "rule": "case = (protocol, n, round, message kind, generic field path, leaf kind, alteration kind, outcome summary) or (variant, deviation, signers, cheater position, abort "
+            "notices dropped?, outcome summary); non-trivial iff the alteration was actually applied to a message that was sent; distinct = distinct class keys",
+    "assumptions": ["authenticated channels: the cheater only sends under its own identity"],
+    "tiers": {
+        "quick": [
+            {"run": "^TestWireCheap$", "checks": 4000, "shards": 4},
+            {"run": "^TestWireCMP$", "checks": 48, "shards": 12, "timeout": 2400},
+            {"run": "^TestDeviations$", "checks": 16, "shards": 8, "timeout": 2400},
+        ],
+        "thorough": [
+            {"run": "^TestWalkCatalogue$", "shards": 16, "timeout": 9000},
+            {"run": "^TestWireCheap$", "checks": 120000, "shards": 6},
+            {"run": "^TestWireCMP$", "checks": 1600, "shards": 16, "timeout": 9000},
+            {"run": "^TestDeviations$", "checks": 640, "shards": 16, "timeout": 9000},
+        ],
+    },
+}
+
+PROPS["C03"] = {
+    "pkg": "c03", "level": "fault_enumeration",
+    "technique": "fault injection through the real handlers on the deterministic simulator, driven by rapid and (thorough) a systematic walk over every field: one participant's "
+                 "outgoing messages are altered at one CBOR leaf (another valid value, the same field of another recipient's / sender's message) or replaced by the message "
+                 "meant for another recipient or round, or the presigner deviates at state level; oracle = no honest party finishes with a result that an independent verifier "
+                 "rejects or that is inconsistent with the other honest finishers",
+    "level_text": "All protocols (cmp keygen/refresh/sign/presign offline, full, online; frost keygen/refresh/sign in both variants; doerner keygen/refresh/sign), n in 2..4 "
+                  "(CMP 2..3), every cheater position, abort notices delivered or lost, generated schedules. Honest finishers' signatures are verified with the reference "
+                  "ECDSA/Schnorr/BIP-340 verifiers under the dealer-known key; key material of finishers must agree on group key and public table, match own shares, and a "
+                  "refresh must keep the key.",
+    "level_note": "Broadcasts are altered identically for all recipients (equivocation is C06). The cheater is run by the real handler, so altered broadcasts also trip the "
+                  "echo-broadcast check; both detection paths are legitimate outcomes for this property.",
+    "rule": "case = (protocol, n, round, message kind, generic field path, leaf kind, alteration kind, outcome summary of the honest parties); non-trivial iff the alteration was "
+            "applied to a message that was really sent; distinct = distinct class keys",
+    "assumptions": ["authenticated channels", "reference verifiers correct"],
+    "tiers": {
+        "quick": [
+            {"run": "^TestCheap$", "checks": 4000, "shards": 4},
+            {"run": "^TestCMP$", "checks": 48, "shards": 12, "timeout": 2400},
+        ],
+        "thorough": [
+            {"run": "^TestWalk$", "shards": 16, "timeout": 9000},
+            {"run": "^TestCheap$", "checks": 120000, "shards": 6},
+            {"run": "^TestCMP$", "checks": 1600, "shards": 16, "timeout": 9000},
+        ],
+    },
+}
